@@ -163,6 +163,16 @@ impl Decoded {
     }
 }
 
+/// does the stream's first reference resolve? (the returned reference is not touched: if the
+/// library hands out a stale pointer, looking at it would be undefined behaviour in the harness)
+pub fn first_ref_resolves(bytes: &[u8]) -> Out<bool> {
+    guarded(|| {
+        let mut ctx = DeserializationContext::new(bytes);
+        Ok(ctx.try_read_ref()?.is_some())
+    })
+    .0
+}
+
 pub fn graph_encode(g: &Graph) -> Out<Vec<u8>> {
     guarded(|| desert::serialize_to_byte_vec(g)).0
 }
